@@ -438,6 +438,13 @@ impl<RW: QueueRW<T>, T> MultiQueue<RW, T> {
         }
     }
 
+    /// True if `pt` is not the flag of the slot that sequence number `count` lives in
+    #[inline(always)]
+    pub fn is_stale_slot(&self, count: usize, pt: *const AtomicUsize) -> bool {
+        let index = (count & (self.capacity as usize - 1)) as isize;
+        unsafe { &(*self.data.offset(index)).wraps as *const AtomicUsize != pt }
+    }
+
     fn reload_tail_multi(&self, tail_cache: usize, count: usize) -> usize {
         if let Some(max_diff_from_head) = self.tail.get_max_diff(count) {
             let current_tail = CountedIndex::get_previous(count, max_diff_from_head);
@@ -530,6 +537,10 @@ impl<RW: QueueRW<T>, T> InnerRecv<RW, T> {
                 Err((_, TryRecvError::Disconnected)) => return Err(RecvError),
                 Err((pt, TryRecvError::Empty)) => {
                     let count = self.reader.load_count(Relaxed);
+                    if self.queue.is_stale_slot(count, pt) {
+                        // a sibling consumer moved the cursor since the failed look
+                        continue;
+                    }
                     unsafe {
                         self.queue.waiter.wait(count, &*pt, &self.queue.writers);
                     }
@@ -560,6 +571,9 @@ impl<RW: QueueRW<T>, T> InnerRecv<RW, T> {
                 Err((o, pt, TryRecvError::Empty)) => {
                     op = o;
                     let count = self.reader.load_count(Relaxed);
+                    if self.queue.is_stale_slot(count, pt) {
+                        continue;
+                    }
                     unsafe {
                         self.queue.waiter.wait(count, &*pt, &self.queue.writers);
                     }
@@ -820,6 +834,9 @@ impl<RW: QueueRW<T>, T> Stream for &FutInnerRecv<RW, T> {
                 Err((_, TryRecvError::Disconnected)) => return Ok(Async::Ready(None)),
                 Err((pt, _)) => {
                     let count = self.reader.reader.load_count(Relaxed);
+                    if self.reader.queue.is_stale_slot(count, pt) {
+                        continue;
+                    }
                     if unsafe { self.wait.fut_wait(count, &*pt, &self.reader.queue.writers) } {
                         return Ok(Async::NotReady);
                     }
@@ -856,6 +873,9 @@ impl<RW: QueueRW<T>, R, F: for<'r> FnMut(&T) -> R, T> Stream for FutInnerUniRecv
                 Err((_, _, TryRecvError::Disconnected)) => return Ok(Async::Ready(None)),
                 Err((_, pt, _)) => {
                     let count = self.reader.reader.load_count(Relaxed);
+                    if self.reader.queue.is_stale_slot(count, pt) {
+                        continue;
+                    }
                     if unsafe { self.wait.fut_wait(count, &*pt, &self.reader.queue.writers) } {
                         return Ok(Async::NotReady);
                     }
